@@ -114,7 +114,9 @@ static void order_case(ctx_t *c, long idx, rng_t *r) {
     { int_t dims[2] = { m, n }; out_intts(c->out, "A.dims", 2, dims); }
     out_intts(c->out, "A.colptr", n + 1, g.colptr); out_intts(c->out, "A.rowind", nnz, g.rowind);
 
-    /* ---- ordering ---- */
+    /* ---- ordering ---- (fresh library blocks hold -1 / 0xA5.. / whatever malloc returns, by index:
+     * a work-array slot that is read before it is written then shows for the value that matters, EMPTY) */
+    led_poison(idx % 3 == 0 ? 0xFF : idx % 3 == 1 ? 0xA5 : -1);
     if (meth == MY_PERMC) { rng_perm(r, n, perm_c); memcpy(pv1, perm_c, sizeof(int) * n); memcpy(pv2, perm_c, sizeof(int) * n); }
     else { get_perm_c(meth, &A, perm_c); get_perm_c(meth, &A1, pv1); get_perm_c(meth, &A2, pv2); }
     out_ints(c->out, "permc0", n, perm_c); out_ints(c->out, "permc0.v1", n, pv1); out_ints(c->out, "permc0.v2", n, pv2);
@@ -178,6 +180,7 @@ static void order_case(ctx_t *c, long idx, rng_t *r) {
         HFREE(post); HFREE(par);
     }
     out_end(c->out);
+    led_poison(-1);
 
     Destroy_CompCol_Matrix(&A); Destroy_CompCol_Matrix(&A1); Destroy_CompCol_Matrix(&A2);
     HFREE(perm_c); HFREE(pv1); HFREE(pv2); HFREE(etree); gmat_free(&g);
